@@ -20,7 +20,7 @@ func (l *verifLog) add(kind, id int) { l.calls = append(l.calls, kind*100+id) }
 type verifS16 struct {
 	id    int
 	order uint32
-	mode  int // prepare/stat: 0 ok, 1 panic; check: 0 pass result, 1 nil, 2 block, 3 panic
+	mode  int // prepare/stat: 0 ok, 1 panic; check: 0 pass result, 1 nil, 2 block, 3 panic, 4 marks the pooled result blocked but returns nil, 5 marks it and panics
 	// how a check slot blocks: 0 fresh result, 1 in place with message, 2 in place with rule and snapshot, 3 in place with the type only
 	inplace int
 	cpanic  bool // statistic slot: panics in OnCompleted
@@ -68,6 +68,15 @@ func (s *verifCheck16) Check(ctx *base.EntryContext) *base.TokenResult {
 		return base.NewTokenResultBlockedWithMessage(base.BlockTypeFlow+base.BlockType(s.id), verifMsgs[s.id])
 	case 3:
 		panic("check panics")
+	case 4: // writes a block into the pooled result but does not return it: the slot passes
+		ctx.RuleCheckResult.ResetToBlockedWithMessage(base.BlockTypeFlow+base.BlockType(s.id), verifMsgs[s.id])
+		return nil
+	case 5: // the same, then panics: contained, the request passes
+		ctx.RuleCheckResult.ResetToBlockedWithMessage(base.BlockTypeFlow+base.BlockType(s.id), verifMsgs[s.id])
+		panic("check panics after marking the result")
+	}
+	if ctx.RuleCheckResult.IsBlocked() {
+		return nil // a passing slot does not hand on a block that an earlier slot left in the pooled result
 	}
 	return ctx.RuleCheckResult
 }
@@ -135,9 +144,12 @@ func VerifC16() {
 	for i := 0; i < NR; i++ {
 		s := &verifCheck16{verifS16{id: i, order: rt.U32n("cord", 2), log: log}}
 		if panics {
-			s.mode = rt.Choice(4)
+			s.mode = rt.Choice(6)
 		} else {
-			s.mode = rt.Choice(3)
+			s.mode = rt.Choice(4)
+			if s.mode == 3 {
+				s.mode = 4
+			}
 		}
 		if s.mode == 2 {
 			s.inplace = rt.Choice(3)
@@ -174,7 +186,7 @@ func VerifC16() {
 				blocker = i
 				break
 			}
-			if cs[i].mode == 3 {
+			if cs[i].mode == 3 || cs[i].mode == 5 {
 				break // contained: the request passes
 			}
 		}
